@@ -3,7 +3,8 @@ import Model.BTree
 /-!
 driver ops of C19 (prefix `c19.`).
 
-`c19.hist <t> <in_order> op op …` runs a whole history on the model and prints one result token per op.
+`c19.hist <t> <in_order> <collapse_always> op op …` (collapse_always: which `_delete` variant the code
+implements, see `Model.BTree.deleteRoot`; probed by the harness on every run) runs a whole history on the model and prints one result token per op.
 Handles: tree 0 is created by the header; `C,h,io` appends a clone; `c,h` appends a cursor.
 
 ops (comma separated fields):
@@ -62,6 +63,7 @@ def outcomeStr : Outcome (Option Elt) → String
   | .ok o => showOpt o
   | .immutableErr => "IMM"
   | .valueError => "VE"
+  | .indexError => "EXC:IndexError"
 
 def nats (fs : List String) : Option (List Nat) := fs.mapM String.toNat?
 
@@ -174,8 +176,8 @@ def step (s : St) (tok : String) : St × String :=
       | _, _ => (s, "!")
   | [] => (s, "!")
 
-def runHist (t : Nat) (io : Bool) (ops : List String) : String :=
-  let tr := Tree.empty t io
+def runHist (t : Nat) (io : Bool) (ca : Bool) (ops : List String) : String :=
+  let tr := Tree.empty t io ca
   let s0 : St := { trees := #[tr], digs := #[digest tr], curs := #[] }
   let (_, out) := ops.foldl (fun (acc : St × Array String) tok =>
     let (s', r) := step acc.1 tok
@@ -185,11 +187,12 @@ def runHist (t : Nat) (io : Bool) (ops : List String) : String :=
 end C19
 
 def handleC19 : List String → Option String
-  | "c19.hist" :: t :: io :: ops => do
+  | "c19.hist" :: t :: io :: ca :: ops => do
     let t ← t.toNat?
     let io ← parseBool io
+    let ca ← parseBool ca
     if t < 3 then some "err ValueError" else
-    some (C19.runHist t io ops)
+    some (C19.runHist t io ca ops)
   | ["c19.search", key, ks] => do
     -- search_in_node on a node whose element keys are `ks` (comma separated, `-` = empty)
     let key ← key.toNat?
